@@ -30,7 +30,14 @@ func VC06_Insert() {
 	w := newWorld(worldOpts{nBackends: 1, mustRecordRoute: must, tcpListener: tcpl, routes: [][3]string{{"udp", "static.example.org", "10.0.3.3:5070"}}})
 	if path != 0 && learned {
 		// learning = an earlier request received from that host, or listing it in a Via
-		early := "OPTIONS sip:x@nowhere.invalid SIP/2.0\r\nVia: SIP/2.0/UDP 10.0.3.3:5070;branch=z9hG4bKe\r\nFrom: <sip:e@example.com>;tag=e\r\nTo: <sip:x@nowhere.invalid>\r\nCall-ID: early\r\nCSeq: 1 OPTIONS\r\nContent-Length: 0\r\n\r\n"
+		viaLearn := "Via: SIP/2.0/UDP 10.0.3.3:5070;branch=z9hG4bKe\r\n"
+		switch rt.Choice("learning-via-layout", 3) {
+		case 1: // the host is listed on a second Via header line
+			viaLearn = "Via: SIP/2.0/UDP 10.0.7.8:5060;branch=z9hG4bKe0\r\nv: SIP/2.0/UDP 10.0.3.3:5070;branch=z9hG4bKe\r\n"
+		case 2: // ... or as a second entry of one line
+			viaLearn = "Via: SIP/2.0/UDP 10.0.7.8:5060;branch=z9hG4bKe0,SIP/2.0/UDP 10.0.3.3:5070;branch=z9hG4bKe\r\n"
+		}
+		early := "OPTIONS sip:x@nowhere.invalid SIP/2.0\r\n" + viaLearn + "From: <sip:e@example.com>;tag=e\r\nTo: <sip:x@nowhere.invalid>\r\nCall-ID: early\r\nCSeq: 1 OPTIONS\r\nContent-Length: 0\r\n\r\n"
 		src := "10.0.3.3"
 		if rt.Bool("learned-by-via") {
 			src = "10.0.7.7"
